@@ -1,30 +1,270 @@
-(* Properties/C05.v — placeholder: the cascade structure of today's schema (Gen/Schema.v).
-   Every table that records an owning lexicon deletes its rows with the lexicon. *)
+(* Properties/C05.v — database content depends only on which lexicons are installed (model: Add.add_lexical_resource / Add.remove over the
+   relational layer Model/Rel.v; the schema, with every foreign key and its ON DELETE action, is regenerated from
+   wn/schema.sql into Gen/Schema.v on every run).
+   [fk_ok d]: every foreign-key cell of every table is NULL or the rowid of a row of the parent table (generic over the schema).
+   [db_rowids_ok d]: rowids are unique per table.  [doomed d roots]: the ON DELETE CASCADE closure of the root rows.
+   [row_le t r' r]: same row up to ON DELETE SET NULL columns.  [db_ext d d']: every table of d' is the rows of d, in place,
+   followed by new rows with larger rowids (only lexicon_dependencies.provider_rowid may change in place).
+   Statements only: every theorem is closed by `exact` of a lemma proved under Proofs/, followed by
+   Print Assumptions.  (Statement texts were printed by Coq from the proved lemmas by harness/mkprops.py and are
+   fixed from then on.) *)
 From Coq Require Import String.
 From Coq Require Import ZArith List Bool.
 Import ListNotations.
-Require Import WnV.Base.Sx WnV.Gen.Schema.
+Require Import WnV.Base.Sx WnV.Gen.Schema WnV.Gen.Constants WnV.Model.Spec WnV.Model.Val.
+Require Import WnV.Model.Rel WnV.Model.Add WnV.Proofs.AddProofs.
+Local Open Scope Z_scope.
 Local Open Scope string_scope.
 
-Definition fk_of (t col : string) : option (string * string) :=
-  match find (fun e => String.eqb (fst (fst (fst e))) t) schema with
-  | Some e => match find (fun f : string * string * string * string => String.eqb (fst (fst (fst f))) col)
-                         (snd (fst e)) with
-              | Some f => Some (snd (fst (fst f)), snd f)
-              | None => None
-              end
-  | None => None
-  end.
-(* tables with a lexicon_rowid column *)
-Definition owned_tables : list string :=
-  map (fun e => fst (fst (fst e)))
-      (filter (fun e => existsb (fun c : string * string * bool * bool => String.eqb (fst (fst (fst c))) "lexicon_rowid")
-                                (snd (fst (fst e)))) schema).
-Example C05_owned_tables_cascade :
-  forallb (fun t => match fk_of t "lexicon_rowid" with
-                    | Some (parent, action) => String.eqb parent "lexicons" && String.eqb action "CASCADE"
-                    | None => false
-                    end) owned_tables = true
-  /\ Nat.leb 12 (length owned_tables) = true.
-Proof. vm_compute. split; reflexivity. Qed.
-Print Assumptions C05_owned_tables_cascade.
+(* ---- removal: no dangling reference is ever left behind (any table, any schema-driven cascade) *)
+Theorem C05_delete_row_fk_ok :
+  forall (fuel : nat) (d : db) (t : string) (rid : Z) (d' : db),
+         fk_ok d = true -> delete_row fuel d t rid = Ok d' -> fk_ok d' = true.
+Proof. exact (@delete_row_fk_ok). Qed.
+Print Assumptions C05_delete_row_fk_ok.
+
+Theorem C05_delete_seq_fk_ok :
+  forall (rids : list Z) (d d' : db),
+         fk_ok d = true -> delete_seq d rids = Ok d' -> fk_ok d' = true.
+Proof. exact (@delete_seq_fk_ok). Qed.
+Print Assumptions C05_delete_seq_fk_ok.
+
+(* ---- wn.remove: the selected lexicons and, for each, exactly its transitive extensions are removed; no row of any table still refers to a removed lexicon *)
+Theorem C05_remove_one_spec :
+  forall (d : db) (rowid : Z) (d' : db),
+         remove_one d rowid = Ok d' ->
+         exists exts : list Z,
+           get_lexicon_extensions d rowid = Ok exts /\
+           (forall x : Z, In x exts <-> ext_reach d rowid x) /\
+           delete_seq d (rev exts ++ [rowid]) = Ok d' /\
+           get_table d' "lexicons" =
+           filter (fun r : row => negb (zmem_z (rowid_of r) (rowid :: exts)))
+             (get_table d "lexicons").
+Proof. exact (@remove_one_spec). Qed.
+Print Assumptions C05_remove_one_spec.
+
+Theorem C05_get_lexicon_extensions_spec :
+  forall (d : db) (rowid : Z) (exts : list Z),
+         get_lexicon_extensions d rowid = Ok exts -> forall x : Z, In x exts <-> ext_reach d rowid x.
+Proof. exact (@get_lexicon_extensions_spec). Qed.
+Print Assumptions C05_get_lexicon_extensions_spec.
+
+Theorem C05_remove_owned_rows_gone :
+  forall (d : db) (spec : str) (d' : db),
+         fk_ok d = true ->
+         remove d spec = Ok d' ->
+         exists R : list Z,
+           delete_seq d R = Ok d' /\
+           (forall (s : str) (specs' : list str),
+            split_ws spec = s :: specs' ->
+            forall l : lexrow, In l (select_one (lexrows_of d) None s) -> In (lx_rowid l) R) /\
+           get_table d' "lexicons" =
+           filter (fun r : row => negb (zmem_z (rowid_of r) R)) (get_table d "lexicons") /\
+           (forall child c a : string,
+            In (child, c, a) (referencing "lexicons") ->
+            forall r : row,
+            In r (get_table d' child) -> forall n : Z, In n R -> col child c r <> CInt n) /\
+           fk_ok d' = true.
+Proof. exact (@remove_owned_rows_gone). Qed.
+Print Assumptions C05_remove_owned_rows_gone.
+
+Theorem C05_remove_single :
+  forall (d : db) (spec s : str) (l : lexrow) (d' : db),
+         split_ws spec = [s] ->
+         select_one (lexrows_of d) None s = [l] ->
+         remove d spec = Ok d' -> remove_one d (lx_rowid l) = Ok d'.
+Proof. exact (@remove_single). Qed.
+Print Assumptions C05_remove_single.
+
+(* ---- frame: every row outside the cascade closure of the removed lexicons survives unchanged (up to SET NULL columns: dependency links of other lexicons are reset); everything inside is gone *)
+Theorem C05_remove_frame :
+  forall (d : db) (spec : str) (d' : db),
+         fk_ok d = true ->
+         db_rowids_ok d = true ->
+         remove d spec = Ok d' ->
+         exists R : list Z,
+           delete_seq d R = Ok d' /\
+           (forall (t : string) (cols : list (string * string * bool * bool))
+              (fks : list (string * string * string * string)) (uqs : list (list string))
+              (r : row),
+            In (t, cols, fks, uqs) schema ->
+            In r (get_table d t) ->
+            ~ doomed d (roots_of R) t (rowid_of r) ->
+            exists r' : row, In r' (get_table d' t) /\ row_le t r' r) /\
+           (forall (t : string) (n : Z),
+            doomed d (roots_of R) t n -> ~ In n (rowids (get_table d' t))) /\
+           shrink d d'.
+Proof. exact (@remove_frame). Qed.
+Print Assumptions C05_remove_frame.
+
+Theorem C05_delete_seq_frame :
+  forall (rids : list Z) (d d' : db) (t : string) (r : row),
+         delete_seq d rids = Ok d' ->
+         NoDup (rowids (get_table d t)) ->
+         In r (get_table d t) ->
+         ~ doomed d (roots_of rids) t (rowid_of r) ->
+         exists r' : row, In r' (get_table d' t) /\ row_le t r' r.
+Proof. exact (@delete_seq_frame). Qed.
+Print Assumptions C05_delete_seq_frame.
+
+Theorem C05_delete_seq_doomed_gone :
+  forall (rids : list Z) (d d' : db),
+         fk_ok d = true ->
+         db_rowids_ok d = true ->
+         delete_seq d rids = Ok d' ->
+         forall (t : string) (n : Z),
+         doomed d (roots_of rids) t n -> ~ In n (rowids (get_table d' t)).
+Proof. exact (@delete_seq_doomed_gone). Qed.
+Print Assumptions C05_delete_seq_doomed_gone.
+
+(* ---- a specifier matching nothing raises wn.Error; "*" on an empty database is a no-op *)
+Theorem C05_remove_nothing_matches :
+  forall (d : db) (spec : str),
+         (forall s : str, In s (split_ws spec) -> select_one (lexrows_of d) None s = []) ->
+         spec <> [c_star] -> remove d spec = WnError.
+Proof. exact (@remove_nothing_matches). Qed.
+Print Assumptions C05_remove_nothing_matches.
+
+Theorem C05_remove_star_empty :
+  forall d : db, get_table d "lexicons" = [] -> remove d [c_star] = Ok d.
+Proof. exact (@remove_star_empty). Qed.
+Print Assumptions C05_remove_star_empty.
+
+(* ---- add: existing rows of every table stay where they are (other lexicons are untouched; only pending dependency links may be resolved); references stay valid *)
+Theorem C05_add_lexical_resource_monotone :
+  forall (d : db) (r : val) (nt : normtable) (d' : db),
+         add_lexical_resource d r nt = Ok d' -> db_ext d d'.
+Proof. exact (@add_lexical_resource_monotone). Qed.
+Print Assumptions C05_add_lexical_resource_monotone.
+
+Theorem C05_add_keeps_rows :
+  forall (d : db) (r : val) (nt : normtable) (d' : db) (t : string),
+         add_lexical_resource d r nt = Ok d' ->
+         t <> "lexicon_dependencies" ->
+         exists news : list row,
+           get_table d' t = (get_table d t ++ news)%list /\
+           (forall r1 : row,
+            In r1 news -> forall r0 : row, In r0 (get_table d t) -> rowid_of r0 < rowid_of r1).
+Proof. exact (@add_keeps_rows). Qed.
+Print Assumptions C05_add_keeps_rows.
+
+Theorem C05_add_keeps_dependencies :
+  forall (d : db) (r : val) (nt : normtable) (d' : db),
+         add_lexical_resource d r nt = Ok d' ->
+         exists olds news : list row,
+           get_table d' "lexicon_dependencies" = (olds ++ news)%list /\
+           Forall2 (fun r0 r1 : row => r1 = r0 \/ (exists c : cell, r1 = set_nth prov_idx c r0))
+             (get_table d "lexicon_dependencies") olds /\
+           (forall r1 : row,
+            In r1 news ->
+            forall r0 : row, In r0 (get_table d "lexicon_dependencies") -> rowid_of r0 < rowid_of r1).
+Proof. exact (@add_keeps_dependencies). Qed.
+Print Assumptions C05_add_keeps_dependencies.
+
+Theorem C05_add_lexical_resource_fk_ok :
+  forall (d : db) (r : val) (nt : normtable) (d' : db),
+         fk_ok d = true -> add_lexical_resource d r nt = Ok d' -> fk_ok d' = true.
+Proof. exact (@add_lexical_resource_fk_ok). Qed.
+Print Assumptions C05_add_lexical_resource_fk_ok.
+
+(* ---- adding again is a no-op; an extension whose base is missing is skipped; what is skipped depends only on (id, version, extends) *)
+Theorem C05_add_lexical_resource_skips :
+  forall (d : db) (r : val) (nt : normtable) (lexs : list val),
+         vreq r "lexicons" = Ok (VList lexs) ->
+         (forall lex : val, In lex lexs -> installed d lex \/ base_missing d lex) ->
+         add_lexical_resource d r nt = Ok d.
+Proof. exact (@add_lexical_resource_skips). Qed.
+Print Assumptions C05_add_lexical_resource_skips.
+
+Theorem C05_readd_is_noop :
+  forall (d : db) (r : val) (nt : normtable) (lexs : list val),
+         vreq r "lexicons" = Ok (VList lexs) ->
+         (forall lex : val, In lex lexs -> installed d lex) -> add_lexical_resource d r nt = Ok d.
+Proof. exact (@readd_is_noop). Qed.
+Print Assumptions C05_readd_is_noop.
+
+Theorem C05_extensions_without_base_skipped :
+  forall (d : db) (r : val) (nt : normtable) (lexs : list val),
+         vreq r "lexicons" = Ok (VList lexs) ->
+         (forall lex : val, In lex lexs -> base_missing d lex) -> add_lexical_resource d r nt = Ok d.
+Proof. exact (@extensions_without_base_skipped). Qed.
+Print Assumptions C05_extensions_without_base_skipped.
+
+Theorem C05_precheck_depends_on_spec_only :
+  forall (d : db) (infos infos' : list val),
+         Forall2 same_spec infos infos' -> _precheck infos d = _precheck infos' d.
+Proof. exact (@precheck_depends_on_spec_only). Qed.
+Print Assumptions C05_precheck_depends_on_spec_only.
+
+(* ---- the schema facts the statements rest on (recomputed from Gen/Schema.v): which columns are SET NULL, which tables refer to lexicons *)
+Theorem C05_setnull_columns :
+  flat_map
+           (fun '(t, _, fks, _) =>
+            flat_map (fun '(c0, _, _, a) => if a =? "SET NULL" then [(t, c0)] else []) fks) schema =
+         [("lexicon_dependencies", "provider_rowid"); ("definitions", "sense_rowid")].
+Proof. exact (@setnull_columns). Qed.
+Print Assumptions C05_setnull_columns.
+
+Theorem C05_references_to_lexicons :
+  referencing "lexicons" =
+         [("lexicon_dependencies", "dependent_rowid", "CASCADE");
+          ("lexicon_dependencies", "provider_rowid", "SET NULL");
+          ("lexicon_extensions", "base_rowid", "NO ACTION");
+          ("lexicon_extensions", "extension_rowid", "CASCADE");
+          ("entries", "lexicon_rowid", "CASCADE"); ("forms", "lexicon_rowid", "CASCADE");
+          ("synsets", "lexicon_rowid", "CASCADE"); ("synset_relations", "lexicon_rowid", "CASCADE");
+          ("definitions", "lexicon_rowid", "CASCADE");
+          ("synset_examples", "lexicon_rowid", "CASCADE"); ("senses", "lexicon_rowid", "CASCADE");
+          ("sense_relations", "lexicon_rowid", "CASCADE");
+          ("sense_synset_relations", "lexicon_rowid", "CASCADE");
+          ("sense_examples", "lexicon_rowid", "CASCADE"); ("counts", "lexicon_rowid", "CASCADE");
+          ("syntactic_behaviours", "lexicon_rowid", "CASCADE")].
+Proof. exact (@references_to_lexicons). Qed.
+Print Assumptions C05_references_to_lexicons.
+
+Theorem C05_lexicon_rowid_columns_covered :
+  forallb
+           (fun '(t, cols, _, _) =>
+            negb
+              (existsb (fun c : string * string * bool * bool => col_name c =? "lexicon_rowid") cols)
+            || existsb
+                 (fun '(child, c, a) => (child =? t) && (c =? "lexicon_rowid") && (a =? "CASCADE"))
+                 (referencing "lexicons")) schema = true.
+Proof. exact (@lexicon_rowid_columns_covered). Qed.
+Print Assumptions C05_lexicon_rowid_columns_covered.
+
+(* ---- non-vacuity: a database built by the model from documents satisfies the hypotheses; a removal and a re-add on it *)
+Theorem C05_ex_db2_ok :
+  fk_ok ex_db2 = true /\
+         db_rowids_ok ex_db2 = true /\
+         map (fun r : row => (rowid_of r, col "lexicons" "id" r)) (get_table ex_db2 "lexicons") =
+         [(1, CText (k "ba")); (2, CText (k "bb"))] /\
+         map (fun r : row => (col "synsets" "ili_rowid" r, col "synsets" "lexicon_rowid" r))
+           (get_table ex_db2 "synsets") = [(CInt 1, CInt 1); (CInt 1, CInt 2)] /\
+         map (col "definitions" "sense_rowid") (get_table ex_db2 "definitions") = [CInt 1; CInt 2] /\
+         map (col "lexicon_dependencies" "provider_rowid") (get_table ex_db2 "lexicon_dependencies") =
+         [CInt 1].
+Proof. exact (@ex_db2_ok). Qed.
+Print Assumptions C05_ex_db2_ok.
+
+Theorem C05_ex_remove :
+  match remove ex_db2 (k "ba") with
+         | Ok d' =>
+             fk_ok d' = true /\
+             map rowid_of (get_table d' "lexicons") = [2] /\
+             map (col "lexicon_dependencies" "provider_rowid") (get_table d' "lexicon_dependencies") =
+             [CNull] /\ Datatypes.length (get_table d' "senses") = 1%nat
+         | _ => False
+         end.
+Proof. exact (@ex_remove). Qed.
+Print Assumptions C05_ex_remove.
+
+Theorem C05_ex_readd :
+  add_lexical_resource ex_db2 (ex_resource [ex_lexicon "ba" []]) [] = Ok ex_db2 /\
+         add_lexical_resource ex_db2
+           (ex_resource
+              [ex_lexicon "xq" [("extends", vd [("id", vs "nobase"); ("version", vs "1")])]]) [] =
+         Ok ex_db2.
+Proof. exact (@ex_readd). Qed.
+Print Assumptions C05_ex_readd.
+
